@@ -30,7 +30,8 @@ TRUSTED_BASE = [
     'numpy float division semantics (x/0 = inf, 0/0 = nan, x/inf = 0)',
 ]
 ASSUMPTIONS = [
-    'class values and data values lie in [0, 2^17) (the LUT; negative or larger values index outside the table in the jitted code)',
+    'class values lie in [0, 2^17) and data values in [-2^15, 2^17): a negative data value v is an undeclared value (ignored), the jitted table '
+    'read lut[v] wraps once to lut[2^17 + v] and the harness never declares the class 2^17 + v; values >= 2^17 or < -2^17 index outside the table',
     'class lists without duplicates for the spec theorems (the impl-model and the C-tie also cover duplicates: last declaration wins)',
     'NaN-for-undefined is checked on inputs whose float sums are exact (|x| <= 63 for float32, 16-bit integers for float64, <= 48 traces)',
     'the first batch of an automatic class set is not empty',
@@ -39,7 +40,12 @@ ASSUMPTIONS = [
 HDR = 'From ScaredV Require Import Model.Partitioned.'
 METRICS = ['ANOVA', 'NICV', 'SNR']
 TRACE_DTYPES = ['uint8', 'uint16', 'int16']
-DATA_MAX = {'uint8': 255, 'uint16': 65535, 'int16': 32767, 'int32': 2 ** 17 - 1}
+DATA_MAX = {'uint8': 255, 'uint16': 65535, 'int8': 127, 'int16': 32767, 'int32': 2 ** 17 - 1}
+# negative values of signed data are UNDECLARED values (no class list contains them).  They stay above -2^15 so that the
+# jitted table read lut[v] (numba wraps a negative index once: lut[2^17 + v]) remains inside the table, and the harness never
+# declares the class 2^17 + v that such a read would hit.
+DATA_MIN = {'int8': -128, 'int16': -32768, 'int32': -32768}
+LUT_SIZE = 2 ** 17
 NMAX = 48
 
 
@@ -104,6 +110,9 @@ def _gen_word(rng, n, pat, declared, undeclared):
     if pat == 'two':
         used = rng.sample(declared, min(len(declared), 2))
         return [used[t % len(used)] for t in range(n)]
+    if pat == 'negmix' and any(v < 0 for v in undeclared):
+        negs = [v for v in undeclared if v < 0]
+        return [rng.choice(negs) if rng.random() < 0.3 else rng.choice(declared) for _ in range(n)]
     if pat == 'mix' and undeclared:
         return [rng.choice(undeclared) if rng.random() < 0.3 else rng.choice(declared) for _ in range(n)]
     # unbalanced: geometric weights over a shuffled class list
@@ -134,9 +143,32 @@ def _splits(rng, n, nb):
     return [b - a for a, b in zip([0] + cuts, cuts + [n])]
 
 
-def _undeclared_pool(rng, parts, dmax, k=6):
+def _negatives(rng, parts, ddtype, k=4):
+    """Negative undeclared values for a signed data dtype.  For a contiguous class set 0..P-1 they stay in [-P, -1]: should an
+    implementation mistake a negative value for an index from the end, the result is wrong but no memory is overwritten."""
+    if ddtype not in DATA_MIN:
+        return []
+    lo = DATA_MIN[ddtype]
+    P = len(parts)
+    if list(parts) == list(range(P)) and P > 0:
+        lo = max(lo, -P)
+        cand = [-1, -2, -P, -max(1, P // 2)] + [-rng.randint(1, P) for _ in range(4)]
+    else:
+        cand = [-1, -2, -128, lo, lo + 1] + [-rng.randint(1, -lo) for _ in range(4)]
     s = set(parts)
     out = []
+    for v in cand:
+        if lo <= v < 0 and (LUT_SIZE + v) not in s and v not in out:
+            out.append(v)
+    if len(out) > k:
+        out = out[:2] + rng.sample(out[2:], k - 2)
+    return out
+
+
+def _undeclared_pool(rng, parts, dmax, ddtype=None, k=6):
+    s = set(parts)
+    out = _negatives(rng, parts, ddtype)
+    k += len(out)
     tries = 0
     while len(out) < k and tries < 200:
         tries += 1
@@ -149,8 +181,12 @@ def _undeclared_pool(rng, parts, dmax, k=6):
 def explicit_case(rng, metric, prec, parts, ddtype, tdtype, n, nb, W=3, S=3, wpats=None, spats=None, ptype='list', via='dist', **kw):
     dmax = DATA_MAX[ddtype]
     declared = sorted(set(parts))
-    undeclared = _undeclared_pool(rng, parts, dmax)
-    pats = wpats or [rng.choice(['unbalanced', 'unbalanced', 'mix', 'sparse', 'const', 'distinct', 'two', 'all_undeclared']) for _ in range(W)]
+    undeclared = _undeclared_pool(rng, parts, dmax, ddtype)
+    negs = [v for v in undeclared if v < 0]
+    choices = ['unbalanced', 'unbalanced', 'mix', 'sparse', 'const', 'distinct', 'two', 'all_undeclared'] + (['negmix', 'negmix', 'mix'] if negs else [])
+    pats = wpats or [rng.choice(choices) for _ in range(W)]
+    if negs and wpats:
+        pats = ['negmix' if q == 'mix' and w % 2 else q for w, q in enumerate(pats)]
     words = [_gen_word(rng, n, pats[w], declared, undeclared) for w in range(W)]
     splits = _splits(rng, n, nb)
     if via == 'attack':
@@ -181,6 +217,14 @@ def auto_case(rng, metric, prec, mx, ddtype, tdtype, n, nb, W=3, S=3, later_max=
         first[0][0] = mn
     lm = min(mx if later_max is None else later_max, DATA_MAX[ddtype])
     rest = [[rng.randint(0, lm) if rng.random() < 0.7 else rng.choice(vals) for _ in range(W)] for _ in range(n - n0)]
+    if ddtype in DATA_MIN and via != 'attack':
+        # signed data: negative (hence undeclared) values arrive after the first batch (the first one would be refused)
+        P = 9 if mx < 9 else (64 if mx < 64 else 256)
+        negs = _negatives(rng, list(range(P)), ddtype)
+        for r in rest:
+            for w in range(W):
+                if rng.random() < 0.25:
+                    r[w] = rng.choice(negs)
     data = first + rest
     traces = _gen_samples(rng, n, S, lo, hi, [r[0] for r in data], spats)
     c = {'via': via, 'metric': metric, 'prec': prec, 'parts': None, 'ptype': 'none', 'ddtype': ddtype, 'tdtype': tdtype,
@@ -214,7 +258,8 @@ class PartKind(Kind):
     shard = 6
     rule = ('ANOVA/NICV/SNR Distinguisher (history update, compute, update, compute, ..., compute, compute: EVERY compute() is compared with the '
             'statistic of the rows fed so far) and <X>Attack.results through a Container (after run and after a second compute_results()) on integer traces (u8/u16/i16) and '
-            'integer data (u8/u16/i16/i32): explicit class lists of 1..12 values (unsorted, gaps, values up to 2^17-1, list/ndarray/range, '
+            'integer data (u8/u16/i8/i16/i32; signed data carry negative, hence undeclared, values -1, -2, -128, -32768, ... in explicit-class '
+            'cases and in the later batches of automatic ones, through both kernels): explicit class lists of 1..12 values (unsorted, gaps, values up to 2^17-1, list/ndarray/range, '
             'duplicates) and automatic class sets (first-batch maxima 0,1,8,9,10,63,64,65,254,255; refused >255 and <0), words that are '
             'unbalanced / constant (K=1) / all distinct (N=K) / sparse / partly or wholly undeclared, samples that are random / constant / '
             'a function of the class (zero within-class variance), 1..3 batches, float32 and float64; every (word, sample) entry compared '
@@ -235,7 +280,7 @@ class PartKind(Kind):
         # every metric x precision on the full set of word / sample patterns, explicit classes
         for metric in METRICS:
             for prec in ('float32', 'float64'):
-                yield explicit_case(rng, metric, prec, [3, 1, 7, 20, 5], 'uint8', 'int16', 24, 2, W=6, S=4,
+                yield explicit_case(rng, metric, prec, [3, 1, 7, 20, 5], 'uint8' if prec == 'float32' else 'int8', 'int16', 24, 2, W=6, S=4,
                                     wpats=['unbalanced', 'const', 'distinct', 'mix', 'all_undeclared', 'two'],
                                     spats=['random', 'const', 'class_fn', 'narrow'])
         # class list sizes 1..12 (unsorted, gaps), rotating metric / precision / dtypes / container type
@@ -246,7 +291,10 @@ class PartKind(Kind):
                                 ddtype, TRACE_DTYPES[P % 3], rng.randint(P, 3 * P + 6), 1 + P % 3, ptype=['list', 'ndarray', 'ndarray_u16'][P % 3])
         # range / arange declarations, 2^17 - 1 as a class, single trace, N = K, K = 1, K = 0, duplicates (last wins)
         metric, prec = nxt()
-        yield explicit_case(rng, metric, prec, list(range(10)), 'uint8', 'uint8', 30, 2, ptype='range')
+        yield explicit_case(rng, metric, prec, list(range(10)), 'int8', 'uint8', 30, 2, ptype='range')
+        # signed data with negative (undeclared) values on contiguous class sets: first call (kernel 1) with <= 9 classes; > 9 classes
+        yield explicit_case(rng, 'SNR', 'float64', list(range(4)), 'int8', 'int16', 14, 1, W=3, S=2, wpats=['negmix', 'mix', 'unbalanced'], ptype='ndarray')
+        yield explicit_case(rng, 'ANOVA', 'float32', list(range(12)), 'int16', 'uint8', 30, 3, W=3, S=2, wpats=['negmix', 'negmix', 'all_undeclared'])
         metric, prec = nxt()
         yield explicit_case(rng, metric, prec, [2 ** 17 - 1, 0, 65536, 70000], 'int32', 'int16', 20, 2)
         for metric in METRICS:
@@ -257,10 +305,10 @@ class PartKind(Kind):
         # automatic class sets: first-batch maxima at and around the brackets; later batches beyond the class set
         for i, mx in enumerate([0, 1, 8, 9, 10, 63, 64, 65, 254, 255]):
             metric, prec = nxt()
-            yield auto_case(rng, metric, prec, mx, 'uint8' if i % 2 == 0 else 'uint16', TRACE_DTYPES[i % 3], 20 + 2 * i, 1 + i % 3,
+            yield auto_case(rng, metric, prec, mx, 'uint8' if i % 2 == 0 else ('int16' if i % 4 == 1 else 'uint16'), TRACE_DTYPES[i % 3], 20 + 2 * i, 1 + i % 3,
                             later_max=[None, 255, 300][i % 3] if i % 2 else [None, 255][i % 2])
         for metric in METRICS:
-            yield auto_case(rng, metric, 'float64', 9, 'uint8', 'int16', 18, 2, later_max=70)
+            yield auto_case(rng, metric, 'float64', 9, 'int8', 'int16', 18, 2, later_max=70)
         # refused: max > 255, min < 0
         yield auto_case(rng, 'ANOVA', 'float32', 256, 'uint16', 'uint8', 8, 1)
         yield auto_case(rng, 'SNR', 'float64', 5, 'int16', 'uint8', 8, 1, mn=-1)
@@ -273,10 +321,10 @@ class PartKind(Kind):
             r = rng.random()
             if r < 0.3:
                 mx = rng.choice([0, 2, 7, 8, 9, 12, 40, 63, 64, 100, 200, 255])
-                yield auto_case(rng, metric, prec, mx, rng.choice(['uint8', 'uint16', 'int16']), tdtype, rng.randint(2, NMAX), rng.randint(1, 3),
+                yield auto_case(rng, metric, prec, mx, rng.choice(['uint8', 'uint16', 'int16', 'int8' if mx <= 127 else 'int16']), tdtype, rng.randint(2, NMAX), rng.randint(1, 3),
                                 W=rng.randint(1, 3), S=rng.randint(1, 3), later_max=rng.choice([None, None, 255, 260]))
             else:
-                ddtype = rng.choice(['uint8', 'uint8', 'uint16', 'int16', 'int32'])
+                ddtype = rng.choice(['uint8', 'uint8', 'uint16', 'int8', 'int16', 'int32'])
                 P = rng.randint(1, 12)
                 parts = _rand_parts(rng, P, DATA_MAX[ddtype], rng.choice(['gaps', 'gaps', 'wide', 'sorted', 'reversed', 'arange', 'offset']))
                 yield explicit_case(rng, metric, prec, parts, ddtype, tdtype, rng.randint(1, NMAX), rng.randint(1, 3),
@@ -285,7 +333,7 @@ class PartKind(Kind):
         # --- the attack classes through a Container
         att = []
         for metric in METRICS:
-            att.append(explicit_case(rng, metric, 'float64', [5, 2, 9, 30], 'uint8', 'int16', 14, 1, W=6, S=3, via='attack', guesses=3,
+            att.append(explicit_case(rng, metric, 'float64', [5, 2, 9, 30], 'int8', 'int16', 14, 1, W=6, S=3, via='attack', guesses=3,
                                      batch='set:5', wpats=['unbalanced', 'mix', 'two', 'sparse', 'const', 'distinct'], spats=['random', 'class_fn', 'narrow']))
             att.append(auto_case(rng, metric, 'float32', 9, 'uint8', 'uint8', 16, 3, W=4, S=2, via='attack', guesses=2, batch='conv:6', later_max=40))
         n_att = 6 if quick else 80
@@ -300,7 +348,8 @@ class PartKind(Kind):
                                      S=rng.randint(1, 3), via='attack', guesses=G, batch=batch, later_max=rng.choice([None, 255])))
             else:
                 P = rng.randint(1, 12)
-                att.append(explicit_case(rng, metric, prec, _rand_parts(rng, P, 255, rng.choice(['gaps', 'sorted', 'reversed'])), 'uint8',
+                dd = rng.choice(['uint8', 'int8', 'int16'])
+                att.append(explicit_case(rng, metric, prec, _rand_parts(rng, P, DATA_MAX[dd], rng.choice(['gaps', 'sorted', 'reversed', 'arange'])), dd,
                                          rng.choice(TRACE_DTYPES), n, 1, W=G * Wd, S=rng.randint(1, 3), via='attack', guesses=G, batch=batch))
         for c in att:
             yield c
